@@ -601,6 +601,45 @@ theorem go_stdout_comes_from_the_search_micro {P O : Type} (g : Game P) (ord : O
     · cases h'
     · exact h'
 
+open HandoverFine in
+/-- **the bestmove is the last improvement shown** (what the forced-schedule sessions check on the real
+    binary): whenever the last act that got through is an improvement — in every run of the search the
+    plain sends come first (the fall-back board before the first evaluation; a second one only when
+    nothing was ever accepted), so this is the case as soon as ANY info line has been shown — the output
+    ends with that improvement's info line followed by the bestmove carrying its board; under every
+    schedule of the micro-steps -/
+theorem bestmove_is_the_last_improvement_shown {B I : Type} (acts : List (Handover.Act B I))
+    (evs : List FEv) (hfin : (frun acts evs).mpc = .fin)
+    (m : B) (i : I) (hlast : (frun acts evs).done.getLast? = some (Handover.Act.accept m i)) :
+    ∃ pre, (frun acts evs).out = pre ++ [Handover.Line.info i, Handover.Line.best m] := by
+  obtain ⟨rest, _, _, hshape⟩ := go_output_under_every_schedule_of_micro_steps acts evs
+  obtain ⟨b, early, late, hout, hdone, hb, hlate⟩ := hshape hfin
+  generalize (frun acts evs).done = done at hout hdone hlast
+  generalize (frun acts evs).out = out at hout
+  -- the last act that got through is an improvement, so nothing plain came after the drain
+  have hl : late = [] := by
+    cases hl : late.getLast? with
+    | none => exact List.getLast?_eq_none_iff.mp hl
+    | some x =>
+      exfalso
+      have hx : x ∈ late := List.mem_of_getLast? hl
+      obtain ⟨m', hm'⟩ := hlate x hx
+      have : done.getLast? = some x := by
+        rw [hdone, List.getLast?_append, hl]; rfl
+      rw [this] at hlast
+      rw [hm'] at hlast
+      cases hlast
+  rw [hl, List.append_nil] at hdone
+  subst hdone
+  obtain ⟨d0, hd0⟩ := List.getLast?_eq_some_iff.mp hlast
+  have hbm : b = m := by
+    rw [hd0, Handover.boards_append] at hb
+    simp [Handover.boards, Handover.Act.board] at hb
+    exact hb.symm
+  refine ⟨Handover.infos d0, ?_⟩
+  rw [hout, hd0, Handover.infos_append, hbm]
+  simp [Handover.infos]
+
 /-- the race of defect D13 at the micro level: the improvement passed the clock check (`want`), the
     I/O thread answers first; the search thread then gets the lock, finds the channel closed and
     ends without printing -/
